@@ -36,15 +36,18 @@ FoldStep(acc, e) ==
              badwrite == acc.badwrite \/ (nm = "WriteMemoryLocation" /\ s.resp # <<"val", Param(e.len, e.f)>>)
                                       \/ (nm \in {"WriteMemoryLocation", "WriteMemoryLocationNoReply"} /\ loc # 2 /\ s.u.mem = u.mem
                                           /\ u.mem[loc + 1] # Param(e.len, e.f))
+             \* an accepted write after which DTR0 had not advanced
+             noadv == acc.noadv \/ (nm \in {"WriteMemoryLocation", "WriteMemoryLocationNoReply"} /\ u.wes
+                                    /\ u.dtr1 = BankNumber(u.bank) /\ u.dtr0 < 255 /\ s.u.dtr0 = u.dtr0)
              reads == IF isread THEN Append(acc.reads, <<loc, s.resp[1], s.resp[2]>>) ELSE acc.reads
          IN IF <<e.resp[1], e.resp[2]>> # s.resp THEN [acc EXCEPT !.k = k, !.at = k, !.clause = "env-answer"]
             ELSE IF e.dtr0 # s.u.dtr0 \/ (e.wes = 1) # s.u.wes \/ e.lock # s.u.mem[3]
             THEN [acc EXCEPT !.k = k, !.at = k, !.clause = "env-state"]
             ELSE [u |-> TLCEval(s.u), k |-> k, at |-> 0, clause |-> "", t0 |-> t0, snapbad |-> snapbad,
-                  sawerr |-> sawerr, badwrite |-> badwrite, reads |-> reads]
+                  sawerr |-> sawerr, badwrite |-> badwrite, reads |-> reads, noadv |-> noadv]
 
 Fold(r) == FoldLeft(FoldStep, [u |-> InitUnit(r.unit), k |-> 0, at |-> 0, clause |-> "", t0 |-> <<>>, snapbad |-> FALSE,
-                               sawerr |-> FALSE, badwrite |-> FALSE, reads |-> <<>>], r.ev)
+                               sawerr |-> FALSE, badwrite |-> FALSE, reads |-> <<>>, noadv |-> FALSE], r.ev)
 
 RowIx(bank, name) == CHOOSE k \in 1..Len(Map) : Map[k][1] = bank /\ Map[k][2] = name
 Fail(c, at) == [ok |-> FALSE, clause |-> c, at |-> at]
@@ -117,7 +120,7 @@ Verdict(r) ==
                stored == /\ \A j \in 1..n : fin[row[3] + j] = r.wdata[j]
                          /\ \A l \in 0..254 : (l # 2 /\ (l < row[3] \/ l >= row[3] + n)) => fin[l + 1] = r.unit.mem[l + 1]
                          /\ ((~lockable /\ 2 \notin LocsOf(row)) => fin[3] = r.unit.mem[3])
-               faulty == fr.badwrite \/ u0.nobble
+               faulty == fr.badwrite \/ u0.nobble \/ fr.noadv
            IN IF ~writable THEN
                   (IF r.out.exc = "MemoryValueNotWriteable" /\ Len(r.ev) = 0 THEN Pass
                    ELSE Fail("read-only-value-not-refused-before-sending", Len(r.ev)))
